@@ -85,9 +85,12 @@ func c09S(s string) c09Val  { return c09Val{K: c09Str, S: s} }
 func c09Big(i int64) c09Val { return c09Val{K: c09Float, F: float64(i), Big: i} }
 
 var c09BigInts = []int64{1<<53 + 1, 1<<53 + 3, math.MaxInt64, -(1<<53 + 1), 1234567890123456789, 1<<60 + 1}
-func c09B(b bool) c09Val    { return c09Val{K: c09Bool, B: b} }
 
-func c09F32Exact(f float64) bool { return float64(float32(f)) == f && !math.IsInf(float64(float32(f)), 0) }
+func c09B(b bool) c09Val { return c09Val{K: c09Bool, B: b} }
+
+func c09F32Exact(f float64) bool {
+	return float64(float32(f)) == f && !math.IsInf(float64(float32(f)), 0)
+}
 
 // yaml renders the value as a rules-file scalar of the same type.
 func (v c09Val) yaml() string {
